@@ -53,6 +53,8 @@ U = {
     # registered, found by rule and removed under exactly this spelling)
     '/q/z/': (L('q/z/'),),
 }
+# the rule '/a/{x}' in the two other spellings: one pattern, one route, whichever spelling registers, finds or removes it
+U_SPELL = {'/a/<x>': (L('a/'), W('x')), '/a/:x': (L('a/'), W('x'))}
 RMP_PATTERN = {'/i/{n:int}*': 'i/\r'}     # prefix removals whose prefix ends in a wildcard (rule text -> pattern prefix)
 HOOKS = {'/a': (L('a'),), '/a/b': (L('a/b'),), '/q': (L('q'),), '/a/{y}': (L('a/'), W('y'))}    # the hook names its wildcard differently from the routes
 NAMES = ['n1', 'n2', 'n3']
@@ -78,6 +80,13 @@ def menu():
     return m
 
 
+def menu_spell():
+    """one pattern under three spellings and several verbs, searched one level deeper"""
+    return [('add', '/a/{x}'), ('add', '/a/<x>'), ('adds', '/a/<x>', 'PUT'), ('adds', '/a/:x', 'DELETE'), ('adds', '/a/{x}', 'PUT'),
+            ('rm', '/a/{x}'), ('rm', '/a/<x>'), ('rm', '/a/:x'), ('rmp', '/a*'), ('add', '/a/b'), ('addo', '/a/<x>'), ('hook', '/a/{y}'),
+            ('addn', '/a/{x}', 'n2'), ('rmn', 'n2')]
+
+
 def menu_inuse():
     """a sub-universe searched one level deeper, on a router that is IN USE: every edit is followed by lookups"""
     rs = ['/a/b', '/a/{x}', '/a/b/c']
@@ -94,6 +103,7 @@ def shards(tier, seed):
     m = menu()
     out = [('bfs', i, depth) for i in range(len(m))]
     out += [('inuse', i, 4 if tier == 'quick' else 6) for i in range(len(menu_inuse()))]
+    out += [('spell', i, 4 if tier == 'quick' else 6) for i in range(len(menu_spell()))]
     out.append(('extra', seed % 3, 3))
     return out
 
@@ -120,6 +130,8 @@ def methods_of(op):
         return ['POST']
     if k == 'addm':
         return MULTI[op[2]]
+    if k == 'adds':
+        return [op[2]]
     return ['GET']
 
 
@@ -142,7 +154,7 @@ def wild_prefixes(ast):
 
 class Model:
     def __init__(self, rules=None, hooks=None):
-        self.U = dict(rules or U)
+        self.U = dict(rules or {**U, **U_SPELL})
         self.H = dict(hooks or HOOKS)
         self.routes = {}     # pattern -> {'rule', 'ast', 'methods'}
         self.names = {}      # name -> pattern
@@ -173,7 +185,7 @@ class Model:
     def expect(self, op):
         """-> 'accept' | 'reject' | 'either' (without changing the model)"""
         k = op[0]
-        if k in ('add', 'addn', 'addo', 'addm', 'addnp', 'addno'):
+        if k in ('add', 'addn', 'addo', 'addm', 'addnp', 'addno', 'adds'):
             ast = self.U[op[1]]
             pat = rr.pattern(ast)
             methods = methods_of(op)
@@ -202,11 +214,11 @@ class Model:
         exp = self.expect(op)
         if exp == 'either':
             exp = 'reject' if raised else 'accept'
-        if k in ('add', 'addn', 'addo', 'addm', 'addnp', 'addno'):
+        if k in ('add', 'addn', 'addo', 'addm', 'addnp', 'addno', 'adds'):
             ast = self.U[op[1]]
             pat = rr.pattern(ast)
             methods = methods_of(op)
-            hid = {'add': 'G:', 'addn': 'P:', 'addo': 'O:', 'addm': 'M:', 'addnp': 'Q:', 'addno': 'R:'}[k] + op[1]
+            hid = {'add': 'G:', 'addn': 'P:', 'addo': 'O:', 'addm': 'M:', 'addnp': 'Q:', 'addno': 'R:', 'adds': 'S:'}[k] + op[1]
             if exp == 'reject':
                 # the only rejected add with specified side effects: a name conflict (route + method stay registered)
                 name_conflict = (k in ('addn', 'addnp') and op[2] in self.names and self.names[op[2]] != pat)
@@ -312,6 +324,8 @@ def apply_real(app, op, log):
             app.route(op[1], 'GET', make_handler(app, 'O:' + op[1]), overwrite=True)
         elif k == 'addm':
             app.route(op[1], list(MULTI[op[2]]), make_handler(app, 'M:' + op[1]))
+        elif k == 'adds':
+            app.route(op[1], op[2], make_handler(app, 'S:' + op[1]))
         elif k in ('rm', 'rmp'):
             app.remove_route(op[1])
         elif k == 'rmn':
@@ -519,6 +533,9 @@ def _work(spec):
         m = m + first
     elif kind == 'inuse':
         m = menu_inuse()
+        first = [m[a]]
+    elif kind == 'spell':
+        m = menu_spell()
         first = [m[a]]
     else:
         first = [m[a]]
